@@ -102,6 +102,17 @@ def fault_part(ctx):
     idx = 0
     for pi, prog in enumerate(progs):
         pls = fr.all_placements(prog, pairs=True, max_pairs=25 if ctx.quick else 400, rng=random.Random(pi))
+        # recording switched off while the operation is in flight (kill switch), alone and together with one other fault
+        steps = [pos for pos, op, dn in fr.dry_trace(prog) if pos[0] == 'main']
+        for pos in steps:
+            pls.append({pos: 'disable'})
+        prng = random.Random(pi + 17)
+        for f in [f for f in pls if len(f) == 1 and list(f.values())[0] != 'disable'][:60]:
+            pos = prng.choice(steps)
+            if pos not in f:
+                g = dict(f)
+                g[pos] = 'disable'
+                pls.append(g)
         for faults in pls:
             idx += 1
             if not ctx.mine(idx):
